@@ -258,7 +258,9 @@ def consumers(prog, res):
                 if x.get("k") == "bin" and x.get("op") == "+" and x.get("pd") and (in_loop or not loops):
                     adv.append((s, x["r"]))
         if not adv:
-            raise AnalysisBroken("%s no longer advances a frame cursor" % name)
+            res.fail(R, "%s advances by ->bytes_of_frame" % name, "R-STEP|%s|no-advance" % name, f.loc(),
+                     "%s walks a packet but never advances its frame cursor: the same frame is delivered for ever" % name)
+            continue
         # where is each local defined?
         defsite = {}
         for b, i, s in f.all_stmts():
@@ -291,6 +293,81 @@ def consumers(prog, res):
             else:
                 res.fail(R, inst, "R-STEP|%s" % name, f.loc(s),
                          "%s steps over a packet by %s, not by the current frame's bytes_of_frame" % (name, ir.render(addend)))
+
+
+def iterators(prog, res):
+    """Termination side of the frame walks (linear-relations analysis):
+    frame_iterator_next returns a frame only while beg < end, returns exactly
+    the old beg and leaves beg advanced by that frame's size, and returns null
+    only when beg is null or has reached end; the walk in
+    vfslice_split_at_delay_ms starts at slice->beg and reads a header only
+    while cur < slice->end."""
+    from .. import linear as L
+    R = "R-STEP"
+    f = prog.func("frame_iterator_next")
+    res.touched(f)
+    an = L.Analysis(prog)
+    problems = []
+    rets = an.run(f, L.State())
+    B0, E0 = L.lvar("ptr:it->remaining.beg"), L.lvar("ptr:it->remaining.end")
+    nn = 0
+    for rv, st in rets:
+        if rv is not None and not (L.is_const(rv) and rv.get(L.ONE, 0) == 0):
+            nn += 1
+            if not st.entails_eq(L.lsub(rv, B0)):
+                problems.append("the frame returned is not the one at the old cursor")
+            if not st.entails_le(L.ladd(L.lsub(B0, E0), L.lconst(1))):
+                problems.append("a frame can be returned although the cursor has reached the end of the packet (reads past the mapped region)")
+            nb = st.cells.get("it->remaining.beg")
+            sz = [v for k, v in st.cells.items() if k.endswith("->bytes_of_frame")]
+            if nb is None or len(sz) != 1 or not st.entails_eq(L.lsub(nb, L.ladd(B0, sz[0]))):
+                problems.append("the cursor is not advanced by the returned frame's bytes_of_frame")
+        else:
+            s2 = st.copy()
+            s2.cons.append(("le", L.ladd(L.lsub(B0, E0), L.lconst(1))))
+            s2.ne.append(B0)
+            if s2.feasible():
+                problems.append("the walk can end (null) although frames remain before the end of the packet")
+    if nn == 0:
+        problems.append("never returns a frame")
+    inst = "frame_iterator_next: returns frames exactly while beg < end"
+    if problems:
+        res.fail(R, inst, "R-STEP|frame_iterator_next|bounds", f.loc(), "frame_iterator_next: %s" % "; ".join(sorted(set(problems))))
+    else:
+        res.oblige(R, inst, True, "%d return state(s)" % len(rets), f.loc())
+    g = prog.func("vfslice_split_at_delay_ms")
+    res.touched(g)
+    rec = {"pre": [], "back": []}
+    an = L.Analysis(prog, on_loop_pre=lambda f_, h, s_: rec["pre"].append(s_.copy()) if f_ is g else None,
+                    on_backedge=lambda f_, h, s_: rec["back"].append(s_.copy()) if f_ is g else None)
+    an.run(g, L.State())
+    loops = paths.natural_loops(g)
+    problems = []
+    if len(loops) != 1:
+        raise AnalysisBroken("vfslice_split_at_delay_ms: expected one walk over the frames")
+    head, body = loops[0]
+    ivs = {an.cellkey(g, lv, L.State()) for b in body for s_ in g.blocks[b].stmts for lv, op, rhs, w in ir.writes_of(s_)
+           if ir.strip(lv).get("k") == "var"}
+    if len(ivs) != 1 or not rec["pre"] or not rec["back"]:
+        problems.append("walk not recognised")
+    else:
+        iv = ivs.pop()
+        Bs, Es = L.lvar("ptr:slice->beg"), L.lvar("ptr:slice->end")
+        for s_ in rec["pre"]:
+            if iv not in s_.cells or not s_.entails_eq(L.lsub(s_.cells[iv], Bs)):
+                problems.append("the walk does not start at slice->beg")
+        for s_ in rec["back"]:
+            c0 = L.lvar("ptr:%s" % iv) if s_.ver.get(iv, 0) == 0 else L.lvar("%s#%d" % (iv, s_.ver.get(iv, 1) - 1))
+            # the cursor symbol at the loop entry: the cell was havocked, so it is
+            # whatever symbol the first read created
+            cands = [c0, L.lvar("ptr:%s" % iv)]
+            if not any(s_.entails_le(L.ladd(L.lsub(c, Es), L.lconst(1))) for c in cands):
+                problems.append("a header is read although the cursor is not below slice->end (reads past the mapped region)")
+    inst = "vfslice_split_at_delay_ms: headers are read only while cur < slice->end"
+    if problems:
+        res.fail(R, inst, "R-STEP|vfslice_split_at_delay_ms|bounds", g.loc(), "vfslice_split_at_delay_ms: %s" % "; ".join(sorted(set(problems))))
+    else:
+        res.oblige(R, inst, True, "", g.loc())
 
 
 def bytes_of_type_table(prog, res):
@@ -329,10 +406,11 @@ def run(ctx, res):
     source_shape_is_cameras(prog, res)
     commit_only_filled(prog, res)
     consumers(prog, res)
+    res.guard(iterators, prog, res)
     bytes_of_type_table(prog, res)
     if n < 2:
         raise AnalysisBroken("expected two frame producers (source, filter), found %d" % n)
     res.require_min("WITNESS", 7)
     res.require_min("R-PRODUCER", 12)
-    res.require_min("R-STEP", 4)
+    res.require_min("R-STEP", 6)
     res.require_min("T-EXH", 6)
